@@ -14,7 +14,9 @@ import (
 	"os"
 	"os/exec"
 	"path/filepath"
+	"regexp"
 	"sort"
+	"strconv"
 	"strings"
 	"sync"
 
@@ -24,6 +26,9 @@ import (
 	"verifharness/cmd/c10/pipe"
 	"verifharness/vh"
 )
+
+var childrenRe = regexp.MustCompile(`children=\[((?:"(?:[^"\\]|\\.)*",)*)\]`)
+var itemRe = regexp.MustCompile(`"(?:[^"\\]|\\.)*"`)
 
 var childFile = flag.String("child", "", "run the cases of this file in this (fresh) process and write their transcripts next to it")
 
@@ -239,8 +244,8 @@ func main() {
 		}
 	}
 
-	total := o.Count(260, 30000)
-	nproc := o.Count(20, 200)
+	total := o.Count(200, 2600)
+	nproc := o.Count(20, 60)
 	if o.N > 0 {
 		nproc = 4
 	}
@@ -465,6 +470,26 @@ func main() {
 				k++
 			})
 		}
+		// the children (= evaluation) order of every object declaration, as validated: strictly
+		// increasing in the full fqdn (Props/C15.v children_order_deterministic)
+		if c%3 == 1 {
+			var lists []string
+			for _, m := range childrenRe.FindAllStringSubmatch(dump1, -1) {
+				var items []string
+				for _, q := range itemRe.FindAllString(m[1], -1) {
+					if u, err := strconv.Unquote(q); err == nil {
+						items = append(items, vh.CoqHex([]byte(u)))
+					}
+				}
+				if len(items) > 1 {
+					lists = append(lists, vh.CoqList(items))
+				}
+			}
+			if len(lists) > 0 {
+				cw.Add("C15Order "+vh.CoqList(lists), map[string]interface{}{"case": cs, "kind": "children-order"})
+				sum.Hist("children-order-cases")
+			}
+		}
 		history = append(history, cs)
 		if len(history) > 40 {
 			history = history[1:]
@@ -484,7 +509,7 @@ func main() {
 	// process-wide node ID counter at the start of the transform differs widely between the
 	// in-process runs and the fresh process each of them is compared with ----
 	pipe.CheckVariant = 0
-	nbig := o.Count(12, 200)
+	nbig := o.Count(10, 60)
 	if o.N > 0 {
 		nbig = 3
 	}
@@ -537,7 +562,7 @@ func main() {
 	// ---- schema pairs: A and B differ in exactly ONE const argument of a custom function and are
 	// run over the same input, A then B here, B then A in a fresh process: whichever runs first
 	// must not decide the other's output (process-wide memos inside custom functions) ----
-	npairs := o.Count(24, 400)
+	npairs := o.Count(20, 120)
 	if o.N > 0 {
 		npairs = 3
 	}
